@@ -45,11 +45,14 @@ structure CoreGenesis where
 def indexed (l : List SInfo) (ra : Nat) : List (Nat × Nat × SInfo) :=
   (List.range l.length).zip l |>.map fun x => (ra, x.1 + 1, x.2)
 
+def gOf (r : Rollapp) : GRollapp :=
+  { id := r.id, owner := r.owner, minBond := r.minBond, launched := r.launched,
+    revs := r.revs, tph := r.tph, evH := r.evH, cdStart := r.cdStart }
+
 /-- `ExportGenesis` of both modules -/
 def exportCore (s : St) : CoreGenesis :=
   { h := s.h, t := s.t, p := s.p,
-    rollapps := s.ras.map fun r => { id := r.id, owner := r.owner, minBond := r.minBond, launched := r.launched,
-                                     revs := r.revs, tph := r.tph, evH := r.evH, cdStart := r.cdStart },
+    rollapps := s.ras.map gOf,
     stateInfos := s.ras.flatMap fun r => indexed r.states r.id,
     latestIdx := (s.ras.filter fun r => !r.states.isEmpty).map fun r => (r.id, r.states.length),
     finIdx := (s.ras.filter fun r => r.lastFin != 0).map fun r => (r.id, r.lastFin),
@@ -62,18 +65,24 @@ def exportCore (s : St) : CoreGenesis :=
 
 def lookup (l : List (Nat × Nat)) (k : Nat) : Option Nat := (l.find? (·.1 == k)).map (·.2)
 
-/-- `InitGenesis` of both modules: every record is written under its own key; the per-rollapp view
-    is what the keeper getters return afterwards -/
+/-- the keeper's view of one rollapp after `InitGenesis` wrote every record under its own key -/
+def importRollapp (g : CoreGenesis) (r : GRollapp) : Rollapp :=
+  { id := r.id, owner := r.owner, minBond := r.minBond, launched := r.launched, revs := r.revs,
+    states := ((g.stateInfos.filter fun x => x.1 == r.id).map (·.2.2)).take ((lookup g.latestIdx r.id).getD 0),
+    lastFin := (lookup g.finIdx r.id).getD 0,
+    tph := r.tph, evH := r.evH, cdStart := r.cdStart,
+    proposer := lookup g.proposers r.id, successor := lookup g.successors r.id }
+
+/-- `AddToNoticeQueue(GetSequencer(addr))` for every exported address -/
+def importNq (seqs : List Seq) (addrs : List Addr) : List (Nat × Addr) :=
+  addrs.filterMap fun a => (seqs.find? (·.addr == a)).bind fun q => q.notice.map fun t => (t, a)
+
+/-- `InitGenesis` of both modules -/
 def importCore (g : CoreGenesis) : St :=
   { h := g.h, t := g.t, p := g.p,
-    ras := g.rollapps.map fun r =>
-      { id := r.id, owner := r.owner, minBond := r.minBond, launched := r.launched, revs := r.revs,
-        states := ((g.stateInfos.filter fun x => x.1 == r.id).map (·.2.2)).take ((lookup g.latestIdx r.id).getD 0),
-        lastFin := (lookup g.finIdx r.id).getD 0,
-        tph := r.tph, evH := r.evH, cdStart := r.cdStart,
-        proposer := lookup g.proposers r.id, successor := lookup g.successors r.id },
+    ras := g.rollapps.map (importRollapp g),
     seqs := g.seqs, queue := g.queue, seqH := g.seqH, lev := g.lev, obsolete := g.obsolete,
-    nq := g.nq.filterMap fun a => (g.seqs.find? (·.addr == a)).bind fun q => q.notice.map fun t => (t, a),
+    nq := importNq g.seqs g.nq,
     bal := g.bal, modBal := g.modBal, burned := g.burned }
 
 /-- export followed by import on the model state -/
